@@ -62,10 +62,11 @@ Proof.
   rewrite (store_ok (m ++ [B2]) (length m) B2); [|apply nth_error_app_new|unfold B2; rewrite !app_length, !vlen; cbn [length]; lia].
   xstep. rewrite upd_app_new. do 3 f_equal.
   unfold B2, cstr_block, zb. rewrite !map_app.
-  replace (Z.to_nat (0 + 1 * (Z.of_nat n1 + Z.of_nat n2))) with (length (map VInt (map Z.of_N t1) ++ map VInt (map Z.of_N t2)))
-    by (rewrite app_length, !map_length; lia).
-  unfold upd. rewrite firstn_app, Nat.sub_diag, firstn_all. cbn [firstn]. rewrite app_nil_r.
-  rewrite skipn_all2 by (rewrite app_length; cbn [length]; lia). reflexivity.
+  f_equal.
+  match goal with |- upd _ (Z.to_nat ?z) _ = _ =>
+    replace (Z.to_nat z) with (length (map VInt (map Z.of_N t1) ++ map VInt (map Z.of_N t2))) by (rewrite app_length, !map_length; lia)
+  end.
+  apply upd_app_new.
 Qed.
 
 (* ------------------------------------------------------------------ uc_dup: malloc(strlen(s) + 1), strcpy *)
@@ -227,6 +228,26 @@ Proof.
   rewrite (tr_uc_chr m b s o beg d fuel Hs Hn Ho Hf) by lia. xstep.
   rewrite (tr_uc_chr m b s o en d fuel Hs Hn Ho Hf) by lia. xstep.
   rewrite Eb, Ee. cbn [option_map chr_val]. xstep. cbn [ptr_cmp]. rewrite Nat.eqb_refl. cbn [arith bind]. xstep.
+  match goal with |- context [exec ?c ?f ?tl _] => change tl with uc_sub_tail end.
+  change (0 <=? 0) with true. xstep. rewrite Nat.eqb_refl. xstep.
+  change (wrap I32 ((0 - 0) ÷ 1)) with (Z.of_nat 0). change (VPtr G_lit__0 0) with (VPtr G_lit__0 (Z.of_nat 0)).
+  destruct (nth_error m G_lit__0) as [lb|] eqn:El; [|apply nth_error_None in El; lia].
+  rewrite (uc_sub_tail_ok _ _ m _ _ _ G_lit__0 0 _ 0 lb _ El) by (cbn; lia).
+  xstep. reflexivity.
+Qed.
+
+(* s == NULL (lbuf_get on an empty buffer; vi.c calls uc_sub with it): uc_chr returns the static "" for every offset, the
+   result is a fresh empty string *)
+Lemma tr_uc_chr_null m off d fuel : (0 < fuel)%nat ->
+  callf cprog fuel (S d) F_uc_chr [VInt 0; VInt off] m = Ok (VPtr G_lit__0 0, m).
+Proof.
+  intro Hf. destruct fuel as [|fuel]; [lia|]. enter F_uc_chr cf_uc_chr. rewrite exec_seq. xstep. rewrite exec_while. xstep. reflexivity.
+Qed.
+Theorem tr_uc_sub_null m beg en d fuel : (0 < fuel)%nat -> (G_lit__0 < length m)%nat ->
+  callf cprog fuel (S (S d)) F_uc_sub [VInt 0; VInt beg; VInt en] m = Ok (VPtr (length m) 0, m ++ [cstr_block (zb [])]).
+Proof.
+  intros Hf Hg. enter F_uc_sub cf_uc_sub. xstep. rewrite tr_uc_chr_null by exact Hf. xstep. rewrite tr_uc_chr_null by exact Hf. xstep.
+  cbn [ptr_cmp]. rewrite ?Nat.eqb_refl. cbn [arith bind]. xstep.
   match goal with |- context [exec ?c ?f ?tl _] => change tl with uc_sub_tail end.
   change (0 <=? 0) with true. xstep. rewrite Nat.eqb_refl. xstep.
   change (wrap I32 ((0 - 0) ÷ 1)) with (Z.of_nat 0). change (VPtr G_lit__0 0) with (VPtr G_lit__0 (Z.of_nat 0)).
